@@ -380,7 +380,10 @@ class Check:
             elif line.startswith("DONE"):
                 done = True
             elif line.startswith("NONDET"):
-                self.infra_errors.append(label + ": " + line[:300])
+                # the same schedule on the same input gave two different observations: with the allocator's contents, the clock and the
+                # thread order all owned by the harness this is behaviour of the code under test that depends on something it must not
+                # depend on (memory it never wrote), so it is reported, not swallowed
+                self.fail("sched:NONDETERMINISM", label + ": " + line[:300], None)
             elif line.startswith("INCOMPLETE"):
                 self.exhaustive = False
                 self.notes.append(label + ": " + line[:200])
